@@ -82,6 +82,9 @@ func (p *Program) VerifyFunction(id string) (res *FuncResult) {
 	for i, fv := range fn.FreeVars {
 		// closure verified on its own: captured variables are arbitrary heap cells
 		v := e.havocVal(True, "fv."+fv.Name(), fv.Type())
+		if _, isPtr := fv.Type().Underlying().(*types.Pointer); isPtr {
+			e.assume(True, Not(Eq(v.L[0], IntLit(0)))) // captured variables are addresses of live variables
+		}
 		fr.freevars = append(fr.freevars, v)
 		_ = i
 	}
@@ -129,8 +132,33 @@ func (p *Program) VerifyFunction(id string) (res *FuncResult) {
 		if err != nil {
 			continue // axiom mentions things this function never sees
 		}
-		e.assumes = append(e.assumes, c)
+		syms := symbolsOf(c)
+		var fs []string
+		for _, sy := range syms {
+			if !strings.HasPrefix(sy, "G.") {
+				fs = append(fs, sy)
+			}
+		}
+		e.assumeIfRelevant(c, fs)
 		e.used["axiom: "+ax.Name+" ("+ax.Src+")"] = true
+	}
+	// invariants of immutable package-level variables (established by the package initialiser)
+	isInit := fn.Name() == "init" && fn.Synthetic != ""
+	if isInit {
+		// the package initialiser runs exactly once, with its guard still false
+		st.setComp("G."+fn.Pkg.Pkg.Name()+".init$guard.", False)
+	}
+	if !isInit {
+		for _, gi := range p.Contracts.Globals {
+			env := e.newEnv(nil, st)
+			env.pkg = gi.Pkg
+			c, err := env.evalBool(gi.Clause.E)
+			if err != nil {
+				continue
+			}
+			e.assumeIfRelevant(c, []string{"G." + gi.Pkg + "." + gi.Global + "."})
+			e.used["global invariant of "+gi.Pkg+"."+gi.Global+" (proved at "+gi.Pkg+".init, variable never written elsewhere)"] = true
+		}
 	}
 	// preconditions
 	assumePre := func(c *FuncContract, b map[string]Val) {
@@ -232,6 +260,42 @@ func (p *Program) VerifyFunction(id string) (res *FuncResult) {
 			}
 		}
 	}
+	if isInit {
+		pkgName := fn.Pkg.Pkg.Name()
+		for _, gi := range p.Contracts.Globals {
+			if gi.Pkg != pkgName {
+				continue
+			}
+			for k, x := range exits {
+				env := e.newEnv(nil, x.st)
+				env.pkg = gi.Pkg
+				c, err := env.evalBool(gi.Clause.E)
+				if err != nil {
+					e.contractError(gi.Clause, err)
+					continue
+				}
+				lbl := gi.Clause.Label
+				if lbl == "" {
+					lbl = gi.Global
+				}
+				o := e.oblige("globalinv", fmt.Sprintf("globalinv.%s@return%d", lbl, k+1), gi.Clause.Text, x.reach, c, gi.Clause)
+				if o != nil {
+					o.Props = gi.Clause.Props
+				}
+			}
+			ws := p.globalWriters(gi.Pkg, gi.Global)
+			o := e.oblige("globalinv", "globalinv.immutable."+gi.Global, "package variable "+gi.Global+" is written only by the package initialiser (writers: "+strings.Join(ws, ", ")+")", True, BoolLit(len(ws) == 0), gi.Clause)
+			if o != nil {
+				o.Props = gi.Clause.Props
+			}
+		}
+	}
+	// vacuity guard: every return that the symbolic execution reaches must be reachable in the logic too
+	for k, x := range exits {
+		c := &Obligation{ID: fmt.Sprintf("%s#cover.return%d", id, k+1), Func: id, Kind: "cover", Desc: "return is reachable (assumptions along the path are consistent)",
+			Reach: x.reach, Cond: True, NAssume: len(e.assumes), Expect: "sat", Pos: e.posString(x.instr.Pos())}
+		e.obls = append(e.obls, c)
+	}
 	for k, x := range exits {
 		if fc != nil {
 			checkPost(fc, bind, k+1, x, "")
@@ -331,7 +395,7 @@ func (e *Engine) checkFrameAt(fn *ssa.Function, fc *FuncContract, bind map[strin
 	}
 	sort.Strings(names)
 	for _, name := range names {
-		if covered(name) || name == lockComp {
+		if covered(name) || name == lockComp || strings.HasPrefix(name, "V.") {
 			continue
 		}
 		fin := x.st.heap[name]
@@ -400,7 +464,16 @@ func SolveAll(results []*FuncResult, opt SolveOptions) {
 				q := j.e.BuildQuery(j.o)
 				j.o.Query = q
 				name := sanitizeFile(j.o.ID)
-				r, all := Portfolio(q, opt.OutDir, name, opt.Timeout, opt.Both)
+				r, all := Portfolio(q, opt.OutDir, name, opt.Timeout, opt.Both && j.o.Expect != "sat")
+				if j.o.Expect == "sat" && r.Status != "sat" && r.Status != "unsat" {
+					// cover query inconclusive (quantifiers): retry on the quantifier-free part
+					q2 := j.e.buildQuery(j.o, true)
+					r2, all2 := Portfolio(q2, opt.OutDir, name+".ground", opt.Timeout, false)
+					if r2.Status == "sat" || r2.Status == "unsat" {
+						r2.Solver += "(ground)"
+						r, all = r2, all2
+					}
+				}
 				j.o.Result = r
 				j.o.All = all
 			}
